@@ -5,6 +5,7 @@
 //         LAST goal gdist   END
 #include "planning_common.h"
 #include <ompl/control/SpaceInformation.h>
+#include <ompl/control/SimpleDirectedControlSampler.h>
 #include <ompl/control/spaces/RealVectorControlSpace.h>
 #include <ompl/control/PathControl.h>
 #include <ompl/control/planners/rrt/RRT.h>
@@ -77,6 +78,8 @@ int main(int argc, char **argv)
         std::cout << "CRUNINFO " << line << "\n";
         try
         {
+            // "<system>:k<n>": the directed control sampler tries n controls per extension and keeps the best (default: 1)
+            unsigned dirk = 0; { std::size_t kp = sys.find(":k"); if (kp != std::string::npos) { dirk = (unsigned)std::stoul(sys.substr(kp + 2)); sys = sys.substr(0, kp); } }
             const bool car = sys == "car";
             ob::StateSpacePtr space = make_space(car ? "SE2" : "R2");
             auto cspace = std::make_shared<oc::RealVectorControlSpace>(space, 2);
@@ -88,6 +91,7 @@ int main(int argc, char **argv)
             auto propfn = car ? prop_car : prop_point;
             si->setStatePropagator([propfn](const ob::State *s, const oc::Control *c, double dt, ob::State *r) { propfn(s, c, dt, r); });
             si->setPropagationStepSize(stepsize); si->setMinMaxControlDuration(mins, maxs);
+            if (dirk > 0) si->setDirectedControlSamplerAllocator([dirk](const oc::SpaceInformation *i) { return std::make_shared<oc::SimpleDirectedControlSampler>(i, dirk); });
             si->setup();
             ob::State *s0 = space->allocState(), *g0 = space->allocState();
             double sy = (q & 1) ? 0.1 : 0.5, gy = (q & 1) ? 0.9 : 0.5;
